@@ -88,6 +88,15 @@ pub struct Profile {
     /// chance (n/64) that the module has 65..140 small helper functions instead of `funcs`
     /// (handle indices beyond 64 / 128: bit-set and small-table boundaries)
     pub many_funcs: u32,
+    /// chance (n/8) that the module declares 1-3 overrides (plus one u32 override with a default)
+    pub overrides: u32,
+    /// chance (n/8) per compute entry point that one @workgroup_size dimension is an override
+    pub wg_override: u32,
+    /// chance (n/8) that a `var<workgroup>` array sized by an override is declared
+    pub ov_sized_array: u32,
+    /// chance (n/8) that helper functions taking and returning structs (entry parameter structs and
+    /// host structs), pointer parameters and a `const_assert` are declared
+    pub struct_helpers: u32,
 }
 
 impl Profile {
@@ -128,6 +137,10 @@ impl Profile {
             keyword_names: 0,
             aliases: 2,
             many_funcs: 0,
+            overrides: 0,
+            wg_override: 0,
+            ov_sized_array: 0,
+            struct_helpers: 0,
         }
     }
 }
@@ -435,7 +448,8 @@ pub fn access_options(sh: &Shader, gi: usize) -> Vec<Access> {
             let mut ps = Vec::new();
             let mut budget = 6;
             paths(ty, &sh.structs, n, &mut ps, &mut budget);
-            if !ty.has_atomic(&sh.structs) && !ty.has_rt_array(&sh.structs) {
+            let ov_sized = sh.ov_sized.iter().any(|(v, _)| v == n);
+            if !ty.has_atomic(&sh.structs) && !ty.has_rt_array(&sh.structs) && !ov_sized {
                 out.push(mk(AccForm::Load(n.clone()), None, "load_whole"));
             }
             for (p, leaf) in ps {
@@ -995,6 +1009,43 @@ pub fn gen_shader(ch: &mut Ch, p: &Profile) -> Shader {
         sh.globals.push(Global { name: names.fresh(ch, "wg_", p.nonascii), kind: GKind::Buf { space: Space::Workgroup, ty }, binding: None });
     }
 
+    // overrides; a workgroup array whose length is an override
+    if ch.chance(p.overrides, 8) {
+        let n = ch.usize_range(0, 2);
+        let mut ids: Vec<u16> = Vec::new();
+        for _ in 0..n {
+            let ty = *ch.pick(&[Sc::U32, Sc::I32, Sc::F32, Sc::Bool]);
+            let id = if ch.chance(1, 4) {
+                let v = ch.range(0, 40) as u16;
+                if ids.contains(&v) {
+                    None
+                } else {
+                    ids.push(v);
+                    Some(v)
+                }
+            } else {
+                None
+            };
+            let init = if ch.chance(6, 8) { Some(ty.lit(ch.range(1, 8))) } else { None };
+            sh.overrides.push(OverrideDef { name: names.fresh(ch, "ov_", 0), id, ty, init });
+        }
+        // the one that sizes workgroups and arrays
+        sh.overrides.push(OverrideDef { name: names.fresh(ch, "ovn_", 0), id: None, ty: Sc::U32, init: Some(format!("{}u", ch.range(1, 8))) });
+        if has_compute_possible && ch.chance(p.ov_sized_array, 8) {
+            let ov = sh.overrides.last().unwrap().name.clone();
+            let elem = if !sized.is_empty() && ch.chance(5, 8) {
+                Ty::St(*ch.pick(&sized))
+            } else {
+                let mut tp = p.ty.clone();
+                tp.arrays = false;
+                gen_sized_ty(ch, &tp, &sh.structs, &sized_nest, 1)
+            };
+            let name = names.fresh(ch, "wgo_", p.nonascii);
+            sh.ov_sized.push((name.clone(), ov));
+            sh.globals.push(Global { name, kind: GKind::Buf { space: Space::Workgroup, ty: Ty::A(Box::new(elem), 4) }, binding: None });
+        }
+    }
+
     // declaration order
     sh.global_order = (0..sh.globals.len()).collect();
     if p.shuffle_decl {
@@ -1190,6 +1241,14 @@ pub fn gen_shader(ch: &mut Ch, p: &Profile) -> Shader {
                         let v = *ch.pick(&[1u32, 2, 4, 8, 16, 3, 64]);
                         wg.push(WgDim::Lit(v));
                     }
+                    if p.wg_override > 0 {
+                        if let Some(ov) = sh.overrides.iter().rev().find(|o| o.ty == Sc::U32 && o.init.is_some()) {
+                            if ch.chance(p.wg_override, 8) {
+                                let k = ch.idx(wg.len());
+                                wg[k] = WgDim::Override(ov.name.clone());
+                            }
+                        }
+                    }
                     // keep the product within naga/wgpu's typical limit of 256*... (naga does not check)
                 }
             }
@@ -1243,6 +1302,16 @@ pub fn gen_shader(ch: &mut Ch, p: &Profile) -> Shader {
             if ch.chance(p.vin_as_storage, 8) && !sh.structs[st].members.iter().any(|m| matches!(m.io, Io::Builtin(_))) {
                 let used: HashSet<u32> = sh.globals.iter().filter_map(|g| g.binding).filter(|b| b.0 == 0).map(|b| b.1).collect();
                 let b = (0..).find(|b| !used.contains(b)).unwrap();
+                // ... or the element type of a workgroup array whose length is an override: the struct is
+                // then host-visible through a variable that is not a binding
+                let ovn = sh.overrides.iter().rev().find(|o| o.ty == Sc::U32 && o.init.is_some()).map(|o| o.name.clone());
+                if let (Some(ov), true) = (ovn, p.ov_sized_array > 0 && has_compute_possible && ch.chance(3, 8)) {
+                    let name = names.fresh(ch, "wgv_", p.nonascii);
+                    sh.ov_sized.push((name.clone(), ov));
+                    sh.globals.push(Global { name, kind: GKind::Buf { space: Space::Workgroup, ty: Ty::A(Box::new(Ty::St(st)), 4) }, binding: None });
+                    sh.global_order.push(sh.globals.len() - 1);
+                    continue;
+                }
                 let ty = match ch.below(3) {
                     0 => Ty::St(st),
                     1 => Ty::A(Box::new(Ty::St(st)), 2),
@@ -1279,6 +1348,31 @@ pub fn gen_shader(ch: &mut Ch, p: &Profile) -> Shader {
     if ch.chance(p.shuffle_items, 8) {
         sh.item_shuffle = (ch.raw() as u64) << 1 | 1;
     }
+    if ch.chance(p.struct_helpers, 8) {
+        // helper functions whose parameter and result are a struct (entry parameter structs and host
+        // structs: constructible ones), a helper with a pointer parameter and a const_assert
+        let cands: Vec<usize> = (0..sh.structs.len())
+            .filter(|i| !Ty::St(*i).has_atomic(&sh.structs) && !Ty::St(*i).has_rt_array(&sh.structs))
+            .filter(|i| !sh.structs[*i].members.is_empty())
+            .collect();
+        let n = ch.usize_range(1, 3).min(cands.len());
+        // function names are not drawn from the keyword list (other generators merge items named so)
+        let kw = std::mem::replace(&mut names.keywords, 0);
+        for _ in 0..n {
+            let si = *ch.pick(&cands);
+            let sn = sh.structs[si].name.clone();
+            let f = names.fresh(ch, "sh_", 0);
+            match ch.below(3) {
+                0 => sh.raw_items.push(format!("fn {f}(v: {sn}) -> {sn} {{\n    return v;\n}}")),
+                1 => sh.raw_items.push(format!("fn {f}(v: {sn}) -> {sn} {{\n    var c = v;\n    return c;\n}}")),
+                _ => sh.raw_items.push(format!("fn {f}(p: ptr<function, {sn}>) -> {sn} {{\n    return *p;\n}}")),
+            }
+        }
+        let f = names.fresh(ch, "ptr_", 0);
+        sh.raw_items.push(format!("fn {f}(p: ptr<function, f32>, q: ptr<private, f32>) {{\n    *p = *p + *q;\n}}"));
+        sh.raw_items.push("const_assert 1 + 1 == 2;".to_string());
+        names.keywords = kw;
+    }
     if ch.chance(p.aliases, 8) {
         // candidate types: everything that occurs as a member, element, variable or parameter type
         let mut cands: Vec<Ty> = Vec::new();
@@ -1306,6 +1400,9 @@ pub fn gen_shader(ch: &mut Ch, p: &Profile) -> Shader {
                     add(ty, &mut cands);
                 }
             }
+        }
+        for o in &sh.overrides {
+            add(&Ty::S(o.ty), &mut cands);
         }
         let n = ch.usize_range(1, 3).min(cands.len());
         for _ in 0..n {
